@@ -25,7 +25,15 @@ def listing(sb, url):
     return [(e[0], e[1], e[3], e[2]) for e in fsutil.listing(d)] if os.path.isdir(d) else []
 
 
-def run_one(chk, sseed, nrepos=1):
+def mtime_kind(path, mtime, classes):
+    """structural refinement of an mtime violation (used to match the recorded finding F-C08a exactly): a complete pool file
+    that carries a local-clock mtime after a history containing a killed run"""
+    if path.startswith("pool/") and mtime >= fsutil.DATE_THRESHOLD and "crash" in classes:
+        return ":pool-file-local-clock:after-killed-run"
+    return ""
+
+
+def run_one(chk, sseed, nrepos=1, directed=None):
     rng = random.Random(sseed)
     w = common.World(rng, nrepos, settings={"wipe_size_ratio": "0", "wipe_count_ratio": "0"})  # S4
     extra = []
@@ -57,8 +65,10 @@ def run_one(chk, sseed, nrepos=1):
             chk.count("skipped(S3)")
             return
         classes = []
-        for vi in versions[:-1]:
+        for hi, vi in enumerate(versions[:-1]):
             cls = rng.choice(["none", "none", "transient", "persistent-required", "crash", "skip"])
+            if directed == "kill-before-pool-utime" and hi == 0:
+                cls = "crash"
             classes.append(cls)
             if cls == "skip":
                 continue
@@ -74,7 +84,11 @@ def run_one(chk, sseed, nrepos=1):
                 taken = []
 
                 def on_fs(idx, op, paths):
-                    if idx == at and not taken:
+                    hit = idx == at
+                    if directed == "kill-before-pool-utime" and hi == 0:
+                        # corpus entry for F-C08a: die after the last write and before the utime of a pool file
+                        hit = op == "utime" and "/pool/" in paths[0] and "/mirror/" in paths[0]
+                    if hit and not taken:
                         taken.append(w.sb.clone(f"crash{len(extra)}"))
 
                 run_e2e.execute(w.sb, vi, stores, {}, vloop.RandomChooser(rng.randrange(1 << 30)), on_fs_event=on_fs)
@@ -91,7 +105,7 @@ def run_one(chk, sseed, nrepos=1):
                 url = r["url"]
                 on_disk = {e[0] for e in run_e2e.tree(w.sb, url)}
                 plans[url], _ = scenario.gen_plan(rng, fcls, r, w.cfgs[url], stores_f[url], skip_pool=on_disk)
-        replay = {"scenario_seed": sseed, "nrepos": nrepos, "history": classes, "versions": kinds, "final": fcls, "lines": w.lines}
+        replay = {"scenario_seed": sseed, "nrepos": nrepos, "directed": directed, "history": classes, "versions": kinds, "final": fcls, "lines": w.lines}
         res = run_e2e.execute(w.sb, final, stores_f, plans, vloop.RandomChooser(rng.randrange(1 << 30)))
         chk.traces += 1
         if res.exit != 0:
@@ -121,14 +135,17 @@ def run_one(chk, sseed, nrepos=1):
                     sig = "tree-differs:" + ",".join(sorted({"stale-" + kind(e[0]) for e in stale} | {"missing-" + kind(e[0]) for e in missing}))
                     chk.violation(sig, replay, f"history {classes}+{fcls}: stale {stale[:3]} missing {missing[:3]}")
                 else:
-                    diff = sorted(set(got) ^ set(want))[:4]
-                    chk.violation("tree-differs:mtime", replay, f"history {classes}+{fcls}: same files, different mtimes {diff}")
+                    wm = {e[0]: e[3] for e in want}
+                    for path, size, sha, mtime in got:
+                        if wm.get(path) != mtime:
+                            chk.violation("tree-differs:mtime" + mtime_kind(path, mtime, classes), replay,
+                                          f"history {classes}+{fcls}: {path} has mtime {mtime}, in a first-ever mirror {wm.get(path)}")
             # (2) upstream dates
             st = stores_f[url]
             for path, size, sha, mtime in got:
                 if path in st and st[path][1] != mtime:
-                    chk.violation("mtime-not-upstream-date", replay, f"{path}: mtime {mtime}, upstream Last-Modified {st[path][1]}")
-                    break
+                    chk.violation("mtime-not-upstream-date" + mtime_kind(path, mtime, classes), replay,
+                                  f"{path}: mtime {mtime}, upstream Last-Modified {st[path][1]}")
             chk.count("files_compared", len(got))
         # (3) idempotence
         inodes = {r["url"]: [(e[0], e[4]) for e in fsutil.listing(runner.mirror_dir(w.sb, r["url"]))] for r in final}
@@ -168,6 +185,8 @@ def run_one(chk, sseed, nrepos=1):
 
 def run(chk, tier, rng):
     n = 30 if tier == "quick" else 700
+    # corpus of recorded findings runs first (F-C08a)
+    run_one(chk, "C08-corpus-F-C08a", directed="kill-before-pool-utime")
     for i in range(n):
         run_one(chk, f"C08-{chk.seed}-{i}", nrepos=2 if i % 6 == 5 else 1)
     chk.assumptions += ["S1: immutable pool paths", "S4: wipe protection disabled (wipe_*_ratio 0)", "S3 worlds skipped",
@@ -180,7 +199,7 @@ def replay(rep):
     chk = Check("C08", "quick", 0)
     chk.known = []
     r = rep["replay"]
-    run_one(chk, r["scenario_seed"], r.get("nrepos", 1))
+    run_one(chk, r["scenario_seed"], r.get("nrepos", 1), r.get("directed"))
     for sig, path, msg, _ in chk.violations:
         print(f"REPLAY VIOLATION {sig}: {msg}")
     return 1 if chk.violations else 0
